@@ -1,29 +1,188 @@
+(* C16: whenever ConductorAbort reaches run_plan, the processes that are sent SIGTERM are exactly the task processes that
+   exist -- for every position (and any number) of signals around and inside the launch of an operation -- and a signal is
+   never lost.  Model/Abort.v; the loop level reuses the executor invariants of Model/Exec.v. *)
 From Coq Require Import List Arith Bool Lia NArith.
 From Conductor Require Import Model.Loader Model.Planner Model.Exec Model.Abort
   Proofs.ExecInv Proofs.ExecTheorems Proofs.ExecMain.
 Import ListNotations.
 
-Lemma kill_all_except_in_popen pt :
-  (forall s o, pt <> InLaunch s o InsidePopenAfterFork) -> same_set (killed pt) (live pt).
+Definition I (o : nat) (k : lkind) (st : nat) (skipping : bool) (s : lstate) : Prop :=
+  match st with
+  | 0 => depth s = 0 /\ pending s = false /\ skipping = false /\ same_set (registered s) (existing s)
+  | 1 => depth s = 1 /\ skipping = false /\ same_set (registered s) (existing s)
+  | 2 => depth s = 1 /\
+         match k with
+         | LProcess => skipping = false /\ same_set (registered s ++ [o]) (existing s)
+         | LSync => skipping = false /\ same_set (registered s) (existing s)
+         | LFails => skipping = true /\ same_set (registered s) (existing s)
+         end
+  | _ => depth s = 1 /\ (skipping = true <-> k = LFails) /\ same_set (registered s) (existing s)
+  end.
+
+Definition good (r : result) : Prop :=
+  match r with
+  | Abort kl lv => same_set kl lv
+  | Cont s => depth s = 0 /\ pending s = false /\ same_set (registered s) (existing s)
+  end.
+
+Definition noted (s : lstate) : lstate := {| depth := depth s; pending := true; existing := existing s; registered := registered s |}.
+
+Lemma deliver_inside s : depth s = 1 -> deliver s = Cont (noted s).
+Proof. intros H. unfold deliver, noted. rewrite H. reflexivity. Qed.
+
+Lemma deliver_outside s : depth s = 0 -> deliver s = Abort (registered s) (existing s).
+Proof. intros H. unfold deliver. rewrite H. reflexivity. Qed.
+
+Lemma I_noted o k st sk s : 1 <= st -> I o k st sk s -> I o k st sk (noted s).
+Proof. intros Hst. destruct st as [|[|[|st]]]; [lia| | |]; cbn; auto. Qed.
+
+Lemma same_set_snoc a b o : same_set (a ++ [o]) b -> same_set (a ++ [o]) b.
+Proof. auto. Qed.
+
+Lemma same_set_app_snoc a b o : same_set a b -> same_set (a ++ [o]) (b ++ [o]).
+Proof. intros H x. rewrite !in_app_iff. rewrite (H x). tauto. Qed.
+
+(* one statement executed at a position where the invariant holds (no signal): the invariant holds at the next position *)
+Lemma run_good o k : forall prog st sigs sk s,
+  shape st prog = true -> I o k st sk s -> good (run o k prog sigs sk s).
 Proof.
-  intros H x. destruct pt as [s|s o lp]; [reflexivity|].
-  destruct lp; simpl; try reflexivity.
-  - exfalso. eapply H. reflexivity.
-  - rewrite in_app_iff. simpl. tauto.
+  induction prog as [|i prog IH]; intros st sigs sk s Hsh HI; [discriminate|].
+  cbn [run].
+  (* the signal before this statement *)
+  assert (Hsig : (hd false sigs = true /\ st = 0) \/
+                 exists s1, (if hd false sigs then deliver s else Cont s) = Cont s1 /\ I o k st sk s1).
+  { destruct (hd false sigs) eqn:Eb; [|right; exists s; auto].
+    destruct st as [|st]; [left; auto|]. right. exists (noted s). split; [|apply I_noted; [lia|exact HI]].
+    apply deliver_inside. destruct st as [|[|st]]; cbn in HI; tauto. }
+  destruct Hsig as [[Eb E0]|(s1 & E1 & HI1)].
+  { subst st. rewrite Eb. destruct HI as (Hd & _ & _ & Hs). rewrite (deliver_outside s Hd). exact Hs. }
+  rewrite E1. clear E1 HI s. rename s1 into s, HI1 into HI.
+  destruct i; cbn [shape] in Hsh.
+  - (* IEnter *) destruct st as [|st]; [|discriminate]. destruct HI as (Hd & Hp & Hk & Hs). subst sk.
+    apply (IH 1); [exact Hsh|]. cbn. rewrite Hd. auto.
+  - (* IOther *) destruct st as [|st]; [discriminate|]. apply (IH (S st)); assumption.
+  - (* IStart *) destruct st as [|[|st]]; try discriminate. destruct HI as (Hd & Hk & Hs). subst sk.
+    destruct k; apply (IH 2); try exact Hsh; cbn; (split; [exact Hd|]); split; try reflexivity; try exact Hs.
+    apply same_set_app_snoc. exact Hs.
+  - (* IRegister *) destruct st as [|[|[|st]]]; try discriminate. destruct HI as (Hd & HK).
+    destruct k; destruct HK as (Hk & Hs); subst sk; apply (IH 3); try exact Hsh; cbn; (split; [exact Hd|]); split; try exact Hs;
+      split; intros; try discriminate; try reflexivity.
+  - (* ILeave *) destruct st as [|[|[|[|st]]]]; try discriminate. destruct prog; [|discriminate].
+    destruct HI as (Hd & _ & Hs). rewrite Hd. cbn [pred Nat.eqb andb].
+    destruct (pending s) eqn:Ep; cbn [andb run good]; [exact Hs|]. cbn. auto.
 Qed.
 
-Lemma in_popen_refuted : exists pt x, In x (live pt) /\ ~ In x (killed pt).
+(* no signal is lost: if one arrives before any statement of the block (or was noted already), ConductorAbort is raised *)
+Lemma run_no_loss o k : forall prog st sigs sk s,
+  shape st prog = true -> I o k st sk s ->
+  (1 <= st /\ pending s = true) \/ existsb (fun b => b) (firstn (length prog) sigs) = true ->
+  exists kl lv, run o k prog sigs sk s = Abort kl lv.
 Proof.
-  exists (InLaunch (xinit {| p_ops := []; p_initial := []; p_cached := []; p_num := 0 |} 1) 0 InsidePopenAfterFork), 0.
-  simpl. split; [auto | tauto].
+  induction prog as [|i prog IH]; intros st sigs sk s Hsh HI Hp; [discriminate|].
+  cbn [run].
+  destruct (hd false sigs) eqn:Eb.
+  - (* a signal right here *)
+    destruct st as [|st].
+    + destruct HI as (Hd & _). rewrite (deliver_outside s Hd). eauto.
+    + assert (Hd : depth s = 1) by (destruct st as [|[|st]]; cbn in HI; tauto).
+      rewrite (deliver_inside s Hd).
+      assert (HI' : I o k (S st) sk (noted s)) by (apply I_noted; [lia|exact HI]).
+      assert (Hp' : 1 <= S st /\ pending (noted s) = true) by (split; [lia|reflexivity]).
+      clear Hp HI. revert HI' Hp'. generalize (noted s). clear s Hd. intros s HI Hp.
+      destruct i; cbn [shape] in Hsh.
+      * discriminate.
+      * eapply (IH (S st)); eauto.
+      * destruct st as [|st]; [|discriminate]. destruct HI as (Hd & Hk & Hs). subst sk.
+        destruct k; eapply (IH 2); try exact Hsh; try (left; split; [lia|cbn; tauto]); cbn; (split; [exact Hd|]); split; try reflexivity; try exact Hs.
+        apply same_set_app_snoc. exact Hs.
+      * destruct st as [|[|st]]; try discriminate. destruct HI as (Hd & HK).
+        destruct k; destruct HK as (Hk & Hs); subst sk; eapply (IH 3); try exact Hsh; try (left; split; [lia|cbn; tauto]); cbn; (split; [exact Hd|]); split; try exact Hs;
+          split; intros; try discriminate; try reflexivity.
+      * destruct st as [|[|[|st]]]; try discriminate. destruct prog; [|discriminate].
+        destruct HI as (Hd & _). rewrite Hd. destruct Hp as (_ & Hp). rewrite Hp. cbn. eauto.
+  - (* no signal here *)
+    assert (Hp' : (1 <= st /\ pending s = true) \/ existsb (fun b => b) (firstn (length prog) (tl sigs)) = true).
+    { destruct Hp as [Hp|Hp]; [left; exact Hp|]. right. destruct sigs as [|b sigs]; [cbn in Hp; discriminate|].
+      cbn [hd] in Eb. subst b. cbn [length firstn existsb orb tl] in *. exact Hp. }
+    clear Hp. destruct i; cbn [shape] in Hsh.
+    + destruct st as [|st]; [|discriminate]. destruct HI as (Hd & Hpf & Hk & Hs). subst sk.
+      eapply (IH 1); [exact Hsh| |].
+      * cbn. rewrite Hd. auto.
+      * destruct Hp' as [(_ & Hp)|Hp]; [rewrite Hpf in Hp; discriminate | right; exact Hp].
+    + destruct st as [|st]; [discriminate|]. eapply (IH (S st)); eauto.
+    + destruct st as [|[|st]]; try discriminate. destruct HI as (Hd & Hk & Hs). subst sk.
+      assert (Hp2 : (1 <= 2 /\ pending s = true) \/ existsb (fun b => b) (firstn (length prog) (tl sigs)) = true)
+        by (destruct Hp' as [(_ & Hp)|Hp]; [left; split; [lia|exact Hp] | right; exact Hp]).
+      destruct k; eapply (IH 2); try exact Hsh; try exact Hp2; cbn; (split; [exact Hd|]); split; try reflexivity; try exact Hs.
+      apply same_set_app_snoc. exact Hs.
+    + destruct st as [|[|[|st]]]; try discriminate. destruct HI as (Hd & HK).
+      assert (Hp3 : (1 <= 3 /\ pending s = true) \/ existsb (fun b => b) (firstn (length prog) (tl sigs)) = true)
+        by (destruct Hp' as [(_ & Hp)|Hp]; [left; split; [lia|exact Hp] | right; exact Hp]).
+      destruct k; destruct HK as (Hk & Hs); subst sk; eapply (IH 3); try exact Hsh; try exact Hp3; cbn; (split; [exact Hd|]); split; try exact Hs;
+        split; intros; try discriminate; try reflexivity.
+    + destruct st as [|[|[|[|st]]]]; try discriminate. destruct prog; [|discriminate].
+      destruct HI as (Hd & _). rewrite Hd. destruct Hp' as [(_ & Hp)|Hp]; [rewrite Hp; cbn; eauto | cbn in Hp; discriminate].
 Qed.
 
-(* at every state of the loop the processes are exactly the started-and-unfinished asynchronous
-   operations, so terminate_processes reaches every task process that exists *)
+(* without a signal the launch ends outside the region, nothing pending, the new process (if any) registered *)
+Lemma run_quiet o k prog s :
+  shape 0 prog = true -> depth s = 0 -> pending s = false ->
+  forall r, run o k prog [] false s = r ->
+  exists s', r = Cont s' /\ depth s' = 0 /\ pending s' = false /\
+    match k with
+    | LProcess => existing s' = existing s ++ [o] /\ registered s' = registered s ++ [o]
+    | _ => existing s' = existing s /\ registered s' = registered s
+    end.
+Proof.
+  intros Hsh Hd Hp r <-.
+  assert (G : forall prog st sk s0,
+    shape st prog = true -> pending s0 = false ->
+    match st with 0 => depth s0 = 0 /\ sk = false | _ => depth s0 = 1 end ->
+    (st <= 1 -> sk = false) -> (sk = true -> k = LFails) ->
+    exists s', run o k prog [] sk s0 = Cont s' /\ depth s' = 0 /\ pending s' = false /\
+      match k with
+      | LProcess => (st <= 1 -> existing s' = existing s0 ++ [o]) /\ (2 <= st -> existing s' = existing s0) /\
+                    (st <= 2 -> registered s' = registered s0 ++ [o]) /\ (3 <= st -> registered s' = registered s0)
+      | _ => existing s' = existing s0 /\ registered s' = registered s0
+      end).
+  { clear. induction prog as [|i prog IH]; intros st sk s0 Hsh Hp Hdep Hsk1 Hsk2; [discriminate|].
+    cbn [run hd tl]. destruct i; cbn [shape] in Hsh.
+    - destruct st as [|st]; [|discriminate]. destruct Hdep as (Hd & ->).
+      destruct (IH 1 false (with_depth (S (depth s0)) s0) Hsh Hp) as (s' & E & H1 & H2 & H3); [cbn; rewrite Hd; reflexivity|auto|discriminate|].
+      exists s'. split; [exact E|]. split; [exact H1|]. split; [exact H2|]. destruct k; cbn in H3; try exact H3.
+      destruct H3 as (A & B & C & D). repeat split; intros; try lia; auto.
+    - destruct st as [|st]; [discriminate|]. destruct (IH (S st) sk s0 Hsh Hp Hdep Hsk1 Hsk2) as (s' & E & H); eauto.
+    - destruct st as [|[|st]]; try discriminate. rewrite (Hsk1 (le_n 1)).
+      destruct k.
+      + destruct (IH 2 false {| depth := depth s0; pending := pending s0; existing := existing s0 ++ [o]; registered := registered s0 |} Hsh Hp Hdep) as (s' & E & H1 & H2 & A & B & C & D); [lia|discriminate|].
+        exists s'. split; [exact E|]. split; [exact H1|]. split; [exact H2|]. cbn in *. repeat split; intros; try lia; auto.
+      + destruct (IH 2 false s0 Hsh Hp Hdep) as (s' & E & H); [lia|discriminate|]. eauto.
+      + destruct (IH 2 true s0 Hsh Hp Hdep) as (s' & E & H); [lia|reflexivity|]. eauto.
+    - destruct st as [|[|[|st]]]; try discriminate.
+      destruct sk.
+      + pose proof (Hsk2 eq_refl) as ->. destruct (IH 3 true s0 Hsh Hp Hdep) as (s' & E & H); [lia|reflexivity|]. eauto.
+      + destruct k.
+        * destruct (IH 3 false {| depth := depth s0; pending := pending s0; existing := existing s0; registered := registered s0 ++ [o] |} Hsh Hp Hdep) as (s' & E & H1 & H2 & A & B & C & D); [lia|discriminate|].
+          exists s'. split; [exact E|]. split; [exact H1|]. split; [exact H2|]. cbn in *. repeat split; intros; try lia; auto.
+        * destruct (IH 3 false s0 Hsh Hp Hdep) as (s' & E & H); [lia|discriminate|]. eauto.
+        * destruct (IH 3 false s0 Hsh Hp Hdep) as (s' & E & H); [lia|discriminate|]. eauto.
+    - destruct st as [|[|[|[|st]]]]; try discriminate. destruct prog; [|discriminate].
+      rewrite Hdep, Hp. cbn. exists (with_depth 0 s0). split; [reflexivity|]. split; [reflexivity|]. split; [exact Hp|].
+      destruct k; cbn; repeat split; intros; try lia; auto. }
+  destruct (G prog 0 false s Hsh Hp (conj Hd eq_refl)) as (s' & E & H1 & H2 & H3); [auto|discriminate|].
+  exists s'. split; [exact E|]. split; [exact H1|]. split; [exact H2|].
+  destruct k; try exact H3. destruct H3 as (A & _ & C & _). split; [apply A; lia | apply C; lia].
+Qed.
+
+(* ---- the loop level: between two launches (and while waiting) the registered processes are the processes of the
+   executor state, which are exactly the started-and-unreaped asynchronous operations ---- *)
+Definition at_loop (s : xstate) : lstate :=
+  {| depth := 0; pending := false; existing := map fst (procs s); registered := map fst (procs s) |}.
+
 Lemma loop_procs_are_started_unfinished p jobs stop orc :
   wf_plan p -> 1 <= jobs ->
   forall s, reachable p jobs stop orc s ->
-  forall o, In o (live (AtLoop s)) ->
+  forall o, In o (existing (at_loop s)) ->
     (exists sl, In (EStart o sl) (trace s)) /\ (forall rc, ~ In (EFinish o rc) (trace s)).
 Proof.
   intros wf Hj s Hr o Ho.
@@ -35,10 +194,13 @@ Lemma loop_started_unfinished_async_are_procs p jobs stop orc :
   wf_plan p -> 1 <= jobs ->
   forall s, reachable p jobs stop orc s ->
   forall o, (exists sl, In (EStart o sl) (trace s)) -> (forall rc, ~ In (EFinish o rc) (trace s)) ->
-    In o (syncs s) \/ In o (killed (AtLoop s)).
+    In o (syncs s) \/ In o (registered (at_loop s)).
 Proof.
   intros wf Hj s Hr o Hs Hf.
   destruct (main_limits p jobs stop orc wf Hj s Hr) as (_ & _ & _ & _ & _ & H & _).
   assert (Hin : In o (infl s)) by (apply H; auto).
   unfold infl, inflP in Hin. apply in_app_or in Hin. exact Hin.
 Qed.
+
+Lemma at_loop_I o k s : I o k 0 false (at_loop s).
+Proof. cbn. repeat split; auto; intros x; tauto. Qed.
